@@ -764,9 +764,9 @@ static void h_op(void)
   else if (strcmp(op, "wq") == 0)          op_wq();
   else if (strcmp(op, "wqrun") == 0 || strcmp(op, "dsqrt") == 0 || strcmp(op, "thrun") == 0) {
     /* watchdog: a deadlock becomes a process death ("fault signal:14" for this case). One deadlock per check run is
-     * enough evidence: later threaded ops of the same run are answered at once instead of waiting 20 s each. */
+     * enough evidence: later threaded ops of the same run are answered at once instead of waiting 45 s each. */
     if (access("c12_deadlock_seen", F_OK) == 0) { h_out("fault deadlock-seen-earlier-in-this-run"); return; }
-    signal(SIGALRM, on_alarm); alarm(20);
+    signal(SIGALRM, on_alarm); alarm(45);
     if (op[0] == 'w') op_wqrun(); else if (op[0] == 't') op_thrun(); else op_dsqrt();
     alarm(0);
   }
